@@ -51,3 +51,15 @@ Definition py_getitem_dyn (c k : pyval) : res pyval :=
 
 (* the value a function returns when control falls off its end *)
 Definition py_none : pyval := PNone.
+
+(* any(x is v for v in c)  for a run-time sequence c: identity with one of its elements.  The model
+   knows the identity of enum members only (one object per class and name; a value of any other kind
+   is never that object); whether two equal strs / ints are one object is not predicted. *)
+Definition py_is_member (x v : pyval) : res bool :=
+  match v with
+  | PEnum c n _ =>
+      Ok (match x with PEnum c' n' _ => pystr_eqb c' c && pystr_eqb n' n | _ => false end)
+  | _ => Raise Unmodelled
+  end.
+Definition py_any_is (x c : pyval) : res bool :=
+  xs <- py_seq_items c ;; r <- mapM (py_is_member x) xs ;; Ok (existsb (fun b => b) r).
